@@ -430,8 +430,22 @@ def arr_binop(eng, st, op, a, b, node):
     return eng.mk_arr(st, nd, ek, sh, content)
 
 
-def arr_map(eng, st, arrs, fn, ek):
+def arr_map(eng, st, arrs, fn, ek, name=None, extra=()):
+    """pointwise map; with `name` the result is a named array term (congruent for equal operands)"""
     nd = arrs[0].k[1]
+    if name is not None:
+        sh = eng.arr_shape(st, arrs[0])
+        i, j = z3.Int(fresh_name('i')), z3.Int(fresh_name('j'))
+        vars_ = [i] if nd == 1 else [i, j]
+        datas = [eng.arr_data(st, v) for v in arrs]
+
+        def body(*vs):
+            xs = [num_term(Val(v.k[2], z3.Select(d, *vs)), ek if ek != 'bool' else v.k[2]) for v, d in zip(arrs, datas)]
+            return fn(xs)
+        _CUR[0] = st
+        content = named_array(eng, 'map_%s_%dd_%s' % (name, nd, '_'.join(elem_tag(v.k[2]) for v in arrs)),
+                              datas + list(extra), vars_, body)
+        return eng.mk_arr(st, nd, ek, sh, content)
     sh = eng.arr_shape(st, arrs[0])
     i, j = z3.Int(fresh_name('i')), z3.Int(fresh_name('j'))
     xs = []
@@ -466,7 +480,8 @@ def arr_compare(eng, st, op, a, b, node):
         if flip:
             x, y = y, x
         return {ast.Lt: x < y, ast.LtE: x <= y, ast.Gt: x > y, ast.GtE: x >= y}[type(op)]
-    return arr_map(eng, st, [arr], f, 'bool')
+    return arr_map(eng, st, [arr], f, 'bool', name='cmp_%s_%s' % (type(op).__name__, 'flip' if flip else 'std'),
+                   extra=[to_real(sc)])
 
 
 def transpose(eng, st, v):
@@ -558,6 +573,8 @@ def subscript_load(eng, st, base, sl, node):
         return ddict_get(eng, st, base, to_int(eng.ev(sl, st)), node)
     if head == 'pdict':
         return pdict_get(eng, st, base, to_int(eng.ev(sl, st)), node)
+    if head == 'idict':
+        return idict_load(eng, st, base, to_int(eng.ev(sl, st)), node)
     raise Unsupported("subscript on %r (line %d)" % (k, getattr(node, 'lineno', 0)))
 
 
@@ -684,6 +701,8 @@ def subscript_store(eng, st, base, sl, value, node):
         return
     if head == 'arr':
         return arr_store(eng, st, base, sl, value, node)
+    if head == 'idict':
+        return idict_store(eng, st, base, to_int(eng.ev(sl, st)), value, node)
     raise Unsupported("subscript store on %r (line %d)" % (k, node.lineno))
 
 
@@ -1466,7 +1485,7 @@ def m_random_sample(eng, st, args, kw, node):
 
 # ---------------------------------------------------------------- bool-array &, inv, det, log
 def arr_bool_and(eng, st, a, b, node):
-    return arr_map(eng, st, [a, b], lambda xs: z3.And(xs[0], xs[1]), 'bool')
+    return arr_map(eng, st, [a, b], lambda xs: z3.And(xs[0], xs[1]), 'bool', name='and')
 
 
 @model('numpy.linalg.inv')
@@ -1541,7 +1560,7 @@ MODELS['math.log'] = np_log
 def np_abs(eng, st, args, kw, node):
     v = args[0]
     if isinstance(v.k, tuple) and v.k[0] == 'arr':
-        return arr_map(eng, st, [v], lambda xs: z3.If(xs[0] >= 0, xs[0], -xs[0]), v.k[2])
+        return arr_map(eng, st, [v], lambda xs: z3.If(xs[0] >= 0, xs[0], -xs[0]), v.k[2], name='abs')
     return m_abs(eng, st, args, kw, node)
 
 
@@ -1679,3 +1698,40 @@ def os_environ_get(eng, st, args, kw, node):
     st.ghost['effect:env'] = True
     present = z3.Bool(fresh_name('env_present'))
     return Val(('opaque', 'envstr'), z3.If(present, z3.IntVal(1), z3.IntVal(0)))
+
+
+@method('arr', 'reshape')
+def arr_reshape(eng, st, base, args, kw, node):
+    """v.reshape(-1, 1) of a 1-D array: the n x 1 column with the same entries"""
+    a = [z3.simplify(to_int(x)) for x in args]
+    if base.k[1] == 1 and len(a) == 2 and z3.is_int_value(a[0]) and z3.is_int_value(a[1]) and a[0].as_long() == -1 and a[1].as_long() == 1:
+        used(eng, "ndarray.reshape(-1, 1) of a 1-D array: n x 1 column with the same entries (copy semantics; never written)")
+        d = eng.arr_data(st, base)
+        n = eng.arr_shape(st, base)[0]
+        i, j = z3.Int(fresh_name('i')), z3.Int(fresh_name('j'))
+        _CUR[0] = st
+        return eng.mk_arr(st, 2, base.k[2], [n, z3.IntVal(1)],
+                          named_array(eng, 'column_of_' + elem_tag(base.k[2]), [d], [i, j], lambda a_, b_: z3.Select(d, a_)))
+    raise Unsupported("reshape form")
+
+
+# ---------------------------------------------------------------- {} used as an int -> int table
+def idict_new(eng, st):
+    r = eng.new_ref(st)
+    st.heap.wr('set:', r, z3.K(I, z3.BoolVal(False)))
+    st.heap.wr('el:int', r, z3.K(I, z3.IntVal(0)))
+    return Val(('idict',), r)
+
+
+def idict_store(eng, st, base, key, value, node):
+    eng.check_store(st, base.t, None, node, 'dict-item')
+    st.heap.wr('set:', base.t, z3.Store(st.heap.rd('set:', base.t), key, z3.BoolVal(True)))
+    st.heap.wr('el:int', base.t, z3.Store(st.heap.rd('el:int', base.t), key, to_int(value)))
+
+
+def idict_load(eng, st, base, key, node):
+    present = z3.Select(st.heap.rd('set:', base.t), key)
+    if not st.spec:
+        eng.oblige(st, "noexc:KeyError@L%d" % node.lineno, 'noexc', present, node)
+        st.assume(present)
+    return vint(z3.Select(st.heap.rd('el:int', base.t), key))
